@@ -1,4 +1,8 @@
 //! Typed wrappers and `Fits64` (filled in below)
-pub fn run(_args: &[String]) -> i32 {
+pub fn run(args: &[String]) -> i32 {
+    if args[6] != "-" {
+        std::fs::write(&args[6], "").unwrap();
+    }
+    eprintln!("HSUMMARY type=typed profile={} seed={} histories=0 distinct_signatures=0 oracle_failures=0 wall_ms=0", args[2], args[3]);
     0
 }
